@@ -468,7 +468,7 @@ def surface_ops(rng, tier, tsan):
         ops += ["logging %d %d" % (T(2, 8), 200)]
         ops += ["terminate %d 0" % T(2, 8), "terminate %d 1" % T(2, 6)]
     else:
-        reps = 1 if not big else 3
+        reps = 2 if not big else 5
         for _ in range(reps):
             ops += ["force %d %d %d" % (T(), 1500 if not big else 6000, rng.choice([20, 50, 100]))]
             ops += ["counters %d %d %d" % (T(), 1500 if not big else 6000, rng.below(1000))]
@@ -488,12 +488,16 @@ def planner_ops(rng, tier, tsan):
     envs += [random_env(rng.fork("env%d" % i), i) for i in range(nrand)]
     for name in PLANNERS:
         if tier == "quick":
-            chosen = [rng.choice(envs[:3])] if tsan else [rng.choice(envs[:3]), envs[3 + rng.below(len(envs) - 3)]]
+            if tsan:
+                # pRRT (the planner with a lock-granularity model) on every fixed obstacle environment
+                chosen = envs[:3] if name == "pRRT" else [envs[rng.below(3)], envs[3 + rng.below(len(envs) - 3)]]
+            else:
+                chosen = [envs[rng.below(3)], envs[rng.below(3)], envs[3 + rng.below(len(envs) - 3)]]
         else:
-            chosen = envs[:3] if tsan else envs
+            chosen = envs[:3] + envs[4:6] if tsan else envs
         for env in chosen:
             threads = rng.range(2, 4) if tsan else rng.range(2, 6)
-            budget = rng.choice([300, 800]) if tsan else rng.choice([500, 1500, 4000])
+            budget = rng.choice([800, 2000]) if tsan else rng.choice([500, 1500, 4000])
             if name == "CForest":
                 budget = min(budget, 800 if not tsan else 300)   # runs until the budget is spent
             if name == "APS":
@@ -649,12 +653,13 @@ def run(ck):
     r = ck.rng.fork("surface-tsan")
     for op in surface_ops(r, ck.tier, True):
         jobs.append(("surface", htsan, op, True))
-    r = ck.rng.fork("planner-plain")
-    for op in planner_ops(r, ck.tier, False):
-        jobs.append(("planner", hplain, op, False))
-    r = ck.rng.fork("planner-tsan")
-    for op in planner_ops(r, ck.tier, True):
-        jobs.append(("planner", htsan, op, True))
+    for rep in range(1 if ck.tier == "quick" else 4):     # thorough: four independent rounds of planner runs
+        r = ck.rng.fork("planner-plain%s" % (rep or ""))
+        for op in planner_ops(r, ck.tier, False):
+            jobs.append(("planner", hplain, op, False))
+        r = ck.rng.fork("planner-tsan%s" % (rep or ""))
+        for op in planner_ops(r, ck.tier, True):
+            jobs.append(("planner", htsan, op, True))
 
     results = []
     workers = 3 if ck.tier == "quick" else 4
